@@ -20,6 +20,7 @@ from ..util import (
     urlsafe_b64decode,
 )
 from .._keys import Key
+from ..errors import DecodeError
 
 
 def represent_general_json(obj: GeneralJSONEncryption) -> GeneralJSONSerialization:
@@ -62,8 +63,15 @@ def __represent_json_serialization(obj: BaseJSONEncryption):  # type: ignore[no-
     return data
 
 
-def extract_general_json(data: GeneralJSONSerialization) -> GeneralJSONEncryption:
+def __extract_protected(data: t.Union[GeneralJSONSerialization, FlattenedJSONSerialization]) -> Header:
     protected = json_b64decode(data["protected"])
+    if not isinstance(protected, dict):
+        raise DecodeError("Invalid header")
+    return protected
+
+
+def extract_general_json(data: GeneralJSONSerialization) -> GeneralJSONEncryption:
+    protected = __extract_protected(data)
     unprotected = data.get("unprotected")
     base64_segments, bytes_segments, aad = __extract_segments(data)
     obj = GeneralJSONEncryption(protected, None, unprotected, aad)
@@ -80,7 +88,7 @@ def extract_general_json(data: GeneralJSONSerialization) -> GeneralJSONEncryptio
 
 
 def extract_flattened_json(data: FlattenedJSONSerialization) -> FlattenedJSONEncryption:
-    protected = json_b64decode(data["protected"])
+    protected = __extract_protected(data)
     unprotected = data.get("unprotected")
     base64_segments, bytes_segments, aad = __extract_segments(data)
     obj = FlattenedJSONEncryption(protected, None, unprotected, aad)
